@@ -269,7 +269,7 @@ impl CheckDef for E2e {
 }
 
 pub fn run(ctx: &mut Ctx) {
-    ctx.rule("E2E: two real sockets over the simulated network (adversarial fault plan: loss 2-30 %, duplicates, delays up to 3 s, path-MTU blackhole, EMSGSIZE, total cut), both directions transfer keyed position-dependent payloads with generated write/read chunking and pauses, generated MTU/buffer/Nagle/ISN configurations; oracle = reader-side prefix relation on every read + wire-content oracle on every ST_DATA. non-trivial = >=1 data datagram dropped/duplicated/delayed and >=2 KB read at the far end; distinct by hash of the (type, size, fate) sequence of the wire log");
+    ctx.rule("E2E: two real sockets over the simulated network (adversarial fault plan: loss 2-30 %, duplicates, delays up to 3 s, path-MTU blackhole, EMSGSIZE, total cut), both directions transfer keyed position-dependent payloads with generated write/read chunking and pauses (a quarter of the readers fill one buffer over several reads, passing a partly filled ReadBuf; one writer chunk size in eight abandons a blocked write after 25 ms and retries with a fresh waker), generated MTU/buffer/Nagle/ISN configurations; oracle = reader-side prefix relation on every read + wire-content oracle on every ST_DATA. non-trivial = >=1 data datagram dropped/duplicated/delayed and >=2 KB read at the far end; distinct by hash of the (type, size, fate) sequence of the wire log");
     ctx.assume("tokio paused clock + single-threaded scheduling; simulated network model (sim::Net)");
     ctx.replay_corpus::<E2e>();
     ctx.run_generated::<E2e>(ctx.tier.pick(30_000, 2_000_000));
